@@ -40,6 +40,10 @@ class Skip(Exception):
     """op degenerates to a counted no-op in this state"""
 
 
+class Boom(Exception):
+    """the fault injected by an operand that fails while it is consumed"""
+
+
 class World:
     def __init__(self, g, layout=None, record=None):
         self.g = g
@@ -224,6 +228,28 @@ class World:
         else:
             self.model_attach(kind, ci, pi)
 
+    def boom(self, objs, k):
+        """an iterable that yields k objects and then fails: the injected fault
+        of a "failed operation" (the built-in keeps what it consumed so far;
+        a collection that applies nothing is accepted as well)"""
+        def gen():
+            for o in objs[:k]:
+                yield o
+            raise Boom()
+        return gen()
+
+    def failed_call(self, fn, what):
+        """run a call whose operand raises Boom part-way; the exception has to
+        come out unchanged"""
+        try:
+            fn()
+        except Boom:
+            return
+        except Exception as e:  # noqa
+            self.failf("refine:failed-op-exception-replaced", "%s: %r" % (what, e))
+            return
+        self.failf("refine:failed-op-exception-swallowed", what)
+
     def operand(self, objs, how):
         """(argument object, the objects in the order the argument yields them)"""
         if how == "set":
@@ -351,6 +377,17 @@ class World:
             parts = [cs, cs2][: 1 + (1 if op.get("two") else 0)]
             if op.get("zero"):
                 parts = []
+            if how == "boom":
+                k = op.get("bk", 0) % (len(cs) + 1)
+                self.failed_call(lambda: coll.update(self.boom(objs, k)), "%s set update" % kind)
+                real = set(self.index_of(kind, o) for o in coll)
+                if real == members | set(cs[:k]) and len(coll) == len(real):
+                    for c in cs[:k]:
+                        self.model_attach(kind, c, pi)
+                elif real != members or len(coll) != len(real):
+                    self.failf("refine:failed-op-contents", "%s set update: neither the consumed prefix nor nothing was added" % kind)
+                    self.resync()
+                return
             args = [self.operand([self.obj(kind, c) for c in part], how)[0] for part in parts]
             coll.update(*args)
             for part in parts:
@@ -451,6 +488,29 @@ class World:
             else:
                 lst += other
             self.resync()
+        elif f in ("extend", "iadd") and op.get("as") == "boom":
+            seq = [self.obj("mod", m) for m in ms]
+            k = op.get("bk", 0) % (len(ms) + 1)
+
+            def call():
+                x = lst
+                if f == "extend":
+                    x.extend(self.boom(seq, k))
+                else:
+                    x += self.boom(seq, k)
+
+            self.failed_call(call, "list " + f)
+            real = [self.index_of("mod", m) for m in lst]
+            want = list(model)
+            for m in ms[:k]:
+                if m in want:
+                    want.remove(m)
+                want.append(m)
+            if real == want:
+                settle(want)
+            elif real != model:
+                self.failf("refine:failed-op-contents", "list %s: neither the consumed prefix nor nothing was appended" % f)
+                self.resync()
         elif f in ("extend", "iadd"):
             seq = [self.obj("mod", m) for m in ms]
             arg, yielded = self.operand(seq, op.get("as", "list"))
@@ -518,7 +578,24 @@ class World:
                     extra = self.movable("mod", extra[:1], "ir", ii)
                     if extra:
                         ms = ms[:-1] + extra
+            if op.get("mis") and (sl.step or 1) != 1:
+                # an extended slice given one item too few or too many: the
+                # rejected assignment must leave everything as it was
+                cur = model[sl]
+                outsiders = self.movable("mod", [m for m in range(nm) if m not in cur], "ir", ii)
+                if op["mis"] == 1 and cur:
+                    ms = cur[1:]
+                elif outsiders:
+                    ms = cur + outsiders[:1]
             seq = [self.obj("mod", m) for m in ms]
+            if op.get("as") == "boom":
+                # the built-in materialises the argument first: nothing changes
+                k = op.get("bk", 0) % (len(ms) + 1)
+                self.failed_call(lambda: lst.__setitem__(sl, self.boom(seq, k)), "list slice assignment")
+                if [self.index_of("mod", m) for m in lst] != model:
+                    self.failf("refine:failed-op-contents", "list slice assignment changed the list although its argument failed")
+                    self.resync()
+                return
             dup = len(set(ms)) != len(ms)
             trial = list(model)
             try:
@@ -528,6 +605,7 @@ class World:
                 builtin_exc = ex
             e = expect_exc(lambda: lst.__setitem__(sl, self.operand(seq, op.get("as", "list") if op.get("as") not in ("set", "frozenset") else "list")[0]), ValueError, "setslice")
             if builtin_exc is not None:
+                self.tags.append("failed-op:list.setslice-size" + ("-negstep" if (sl.step or 1) < 0 and model[sl] else ""))
                 if not isinstance(e, ValueError):
                     self.failf("refine:list.setslice-size-mismatch-no-ValueError", repr(e))
                 # a failed operation leaves everything as it was
